@@ -235,6 +235,29 @@ package influx
 //@     invariant [every_field_slot_gets_key_type_and_value] k == i && ty == i && v == i && !fs && 0 <= i && i <= fieldN && len(fieldpool) == start + fieldN && 0 <= start
 //@   ensures [fields_rewritten_on_every_successful_decode] result2 == nil ==> fs && k == len(r.Fields) && ty == len(r.Fields) && v == len(r.Fields)
 
+// The text parser fills POOLED Row slots too: a slot is cleared before anything of the next line is parsed into it, so
+// that a line which fails half-way (its tags parsed, its field value bad) leaves nothing behind for the line - or the
+// request - that gets the slot next: a line without tags is stored without tags, not under those of a rejected line.
+//@ prop C06
+//@ func (*Row).Reset
+//@   requires r != nil
+//@   ensures [slot_holds_nothing_of_its_previous_row] len(r.Tags) == 0 && len(r.Fields) == 0 && len(r.Name) == 0 && r.Timestamp == 0 && len(r.ShardKey) == 0 && len(r.IndexOptions) == 0 && len(r.StreamId) == 0 && !r.StreamOnly && r.SeriesId == 0 && len(r.IndexKey) == 0
+//@ func (*Row).unmarshal
+//@   requires r != nil
+//@   ghost cleared bool = false
+//@   call (*Row).Reset
+//@     set cleared = true
+//@   call checkWhitespace
+//@     requires [slot_cleared_before_the_line_is_parsed] cleared
+//@   call nextUnescapedChar
+//@     requires [slot_cleared_before_the_line_is_split] cleared
+//@   store Row.Tags
+//@     requires [tags_go_into_a_cleared_slot] cleared
+//@   store Row.Fields
+//@     requires [fields_go_into_a_cleared_slot] cleared
+//@   store Row.Name
+//@     requires [name_goes_into_a_cleared_slot] cleared
+
 // Un-escaping of a quoted string field: in front of a quote, a run of k backslashes stands for k/2 literal backslashes
 // followed by the quote itself (\" is a quote, \\\" is a backslash and a quote ...): exactly k/2 of them are kept.
 //@ prop C06
